@@ -1,7 +1,7 @@
 PROP = {
     "id": "C51",
     "theorem_modules": ["Verif.Properties.C51"],
-    "min_theorems": 12,
+    "min_theorems": 13,
     "required_theorems": ["Verif.Properties.C51.orderedmap_refines", "Verif.Properties.C51.bimap_refines", "Verif.Properties.C51.bimap_inverse", "Verif.Properties.C51.ist_invariant", "Verif.Properties.C51.ist_search_sound_complete"],
     "streams": [
         {"name": "ds", "driver": "drv_ds",
